@@ -653,6 +653,12 @@ func (t *ioConn) Read(ctx context.Context) (jsonrpc.Message, error) {
 		var respBatch *msgBatch // track incoming requests in the batch
 		for _, msg := range msgs {
 			if req, ok := msg.(*jsonrpc.Request); ok {
+				if !req.IsCall() {
+					// Notifications receive no response, so they must not be
+					// tracked: the batch would otherwise never be complete
+					// (and two notifications would look like a duplicate ID).
+					continue
+				}
 				if respBatch == nil {
 					respBatch = &msgBatch{
 						unresolved: make(map[jsonrpc2.ID]int),
